@@ -14,6 +14,7 @@ import (
 
 	"go.amzn.com/lambda/interop"
 	"go.amzn.com/lambda/metering"
+	"go.amzn.com/lambda/verifhook"
 )
 
 var ErrBufferSizeTooLarge = errors.New("buffer size cannot be greater than bucket size")
@@ -145,6 +146,7 @@ func (th *Throttler) bandwidthLimitingWrite(w io.Writer, p []byte) (written int,
 			th.metrics.ProducedBytes += int64(written)
 			return
 		}
+		verifhook.Point("throttler.beforeWait")
 		waitStart := metering.Monotime()
 		elapsed := <-th.produced - waitStart
 		if elapsed > 0 {
